@@ -367,6 +367,15 @@ def close_once(chk: Check) -> None:
            kind='at-most-once')
     runs = [c for l in loops for c in ast.walk(l) if isinstance(c, ast.Call) and isinstance(c.func, ast.Name) and c.func.id == norm(l.target)]
     chk.ob('PAIR-cleanups-once', on_close, len(loops) == 1 and len(runs) == 1, 'on_close runs every registered cleanup once', kind='runs-each')
+    # a cleanup that raises (plumpy's own unsubscribe calls can, when the connection is gone) must not keep the remaining ones from running:
+    # what it raises has to be caught inside the loop body
+    from ..esc import Esc
+    esc = Esc(chk.ctx)
+    isolated = False
+    for c in runs:
+        cont = esc.container_of(on_close, c)
+        isolated = cont is not None and cont.kind == 'except' and any(any(x is cont.node for x in ast.walk(s_)) for l in loops for s_ in l.body)
+    chk.ob('PAIR-cleanups-once', on_close, isolated, 'a cleanup that raises is caught inside the loop: every other registered cleanup still runs (exactly once each)', kind='each-cleanup-isolated')
     closed_sets = [n for n in cfg2.nodes if n.kind == 'stmt' and isinstance(n.ast, ast.Assign) and norm(n.ast.targets[0]) == 'self._closed' and norm(n.ast.value) == 'True']
     ok = bool(closed_sets) and cfg2.must_pass(cfg2.entry, [cfg2.exit, cfg2.raise_exit], lambda m: m in closed_sets)
     chk.ob('PAIR-cleanups-once', on_close, ok, '_closed is set on every exit of on_close (normal or raising)', kind='closed-on-all-exits')
